@@ -40,6 +40,20 @@ func (idx *Index) AddStage(stg stage.Stage, path string) error {
 			)
 		}
 	}
+	// Conversely, the new Stage must not take ownership of (a directory
+	// containing) an Artifact that is already owned by another Stage.
+	for ownerPath, owner := range *idx {
+		for artPath := range owner.Outputs {
+			if _, ok := stage.FindDirArtifactOwnerForPath(artPath, stg.Outputs); ok {
+				return fmt.Errorf(
+					"%s: artifact %s already owned by %s",
+					path,
+					artPath,
+					ownerPath,
+				)
+			}
+		}
+	}
 	(*idx)[path] = &stg
 	return nil
 }
